@@ -435,7 +435,7 @@ func (g *Gen) stmt(top, decl bool) ast.Vertex {
 		for i := 0; i < k; i++ {
 			switch g.intn(5, "globalvar") {
 			case 0:
-				n.Vars = append(n.Vars, &ast.ExprVariable{DollarTkn: g.ch('$'), Name: g.simpleVar()})
+				n.Vars = append(n.Vars, g.indirectVar(1))
 			case 1:
 				n.Vars = append(n.Vars, &ast.ExprVariable{DollarTkn: g.ch('$'), OpenCurlyBracketTkn: g.ch('{'), Name: g.Expr(), CloseCurlyBracketTkn: g.ch('}')})
 			default:
